@@ -145,3 +145,122 @@ func VH_C11_DetachedArray() {
 	}
 	vhReach("detached-done")
 }
+
+// Map as the former parent: the child array is detached by overwriting its
+// key with another container (inlined or standalone) or a plain value, or by
+// removing the key; the stale handle is then mutated with symbolic sizes.
+//
+//vh:prop C11
+//vh:param ops 2 3
+func VH_C11_DetachedFromMap() {
+	vhSetThreshold(256)
+	nops := vhParam("ops", 2)
+	storage := &vLogStorage{BasicSlabStorage: vhNewBasicStorage()}
+	addr := vhAddr(1)
+	b := &vDigesterBuilder{levels: 4}
+	parent, err := NewMap(storage, addr, b, vTypeInfo{id: 42})
+	vhAssert(err == nil, "new map")
+	child, _ := NewArray(storage, addr, vTypeInfo{id: 42})
+	childVID := child.ValueID()
+	var cm []uint64
+	k := vhChoose("childlen", 3)
+	for i := 0; i < k; i++ {
+		t := uint64(10 + i)
+		_ = child.Append(vElem{tag: t, size: vhRange32("csz", 1, 100)})
+		cm = append(cm, t)
+	}
+	key := vhNewKey(1)
+	_, err = parent.Set(vhCompare, vhHip, key, child)
+	vhAssert(err == nil, "attach child under key")
+	other := vhNewKey(2)
+	vhAssume(other.d[0] != key.d[0])
+	_, err = parent.Set(vhCompare, vhHip, other, vElem{tag: 77, size: vhRange32("vsz", 1, 40)})
+	vhAssert(err == nil, "sibling entry")
+	h := child
+	if vhChoose("handle", 2) == 1 {
+		v, err := parent.Get(vhCompare, vhHip, key)
+		vhAssert(err == nil, "lookup child")
+		h = v.(*Array)
+	}
+	// detach
+	var detached Storable
+	var repl *Array
+	present := true
+	switch vhChoose("detach", 4) {
+	case 0: // remove the key
+		_, detached, err = parent.Remove(vhCompare, vhHip, key)
+		vhAssert(err == nil, "detach by remove")
+		present = false
+	case 1: // overwrite with a plain value
+		detached, err = parent.Set(vhCompare, vhHip, key, vElem{tag: 88, size: vhRange32("vsz", 1, 40)})
+		vhAssert(err == nil, "detach by overwrite (plain)")
+	case 2, 3: // overwrite with another container (small => inlined, or large => standalone)
+		repl, _ = NewArray(storage, addr, vTypeInfo{id: 42})
+		_ = repl.Append(vElem{tag: 500, size: vhRange32("rsz", 1, 117)})
+		detached, err = parent.Set(vhCompare, vhHip, key, repl)
+		vhAssert(err == nil, "detach by overwrite (container)")
+	}
+	if err != nil {
+		return
+	}
+	sid, isRef := detached.(SlabIDStorable)
+	vhAssert(isRef, "detached child is handed back as an independently stored value")
+	if !isRef {
+		return
+	}
+	for op := 0; op < nops; op++ {
+		sizeBefore := parent.root.Header().size
+		switch vhChoose("op", 3) {
+		case 0:
+			t := uint64(50 + op)
+			err := h.Append(vElem{tag: t, size: vhRange32("csz", 1, 200)})
+			vhAssert(err == nil, "stale append")
+			cm = append(cm, t)
+		case 1:
+			if len(cm) == 0 {
+				return
+			}
+			s, err := h.Remove(0)
+			vhAssert(err == nil, "stale remove")
+			if err == nil {
+				vhDispose(storage, s)
+			}
+			cm = cm[1:]
+		case 2:
+			err := h.PopIterate(func(s Storable) { vhDispose(storage, s) })
+			vhAssert(err == nil, "stale pop")
+			cm = nil
+		}
+		vhAssert(parent.root.Header().size == sizeBefore, "former parent size bookkeeping unchanged")
+		verr := VerifyMap(parent, addr, vTypeInfo{id: 42}, vhTic, vhHip, true)
+		vhAssert(verr == nil, "former parent stays valid")
+		// the key still holds what replaced the child (or is absent)
+		v, gerr := parent.Get(vhCompare, vhHip, key)
+		if !present {
+			vhAssert(vhIsKeyNotFound(gerr), "removed key stays absent")
+		} else {
+			vhAssert(gerr == nil, "former parent lookup")
+			if gerr == nil {
+				if repl != nil {
+					ra, ok := v.(*Array)
+					vhAssert(ok && ra.ValueID() == repl.ValueID(), "former parent still holds the replacement container")
+					if ok {
+						vhAssert(ra.Count() == 1, "replacement container content unchanged")
+					}
+				} else {
+					vhAssert(vhTagOf(v) == 88, "former parent still holds the replacement value")
+				}
+			}
+		}
+		sv, serr := parent.Get(vhCompare, vhHip, other)
+		vhAssert(serr == nil && vhTagOf(sv) == 77, "sibling entry unchanged")
+	}
+	vhAssert(h.ValueID() == childVID, "detached child keeps its value id")
+	vhAssert(!h.Inlined(), "detached child is standalone")
+	re, rerr := NewArrayWithRootID(storage, SlabID(sid))
+	vhAssert(rerr == nil, "detached child reloadable by its identifier")
+	if rerr == nil {
+		vhCheckArray(re, addr, cm, "detached child")
+	}
+	vhReach("detached-done")
+}
